@@ -125,4 +125,38 @@ def run(ctx):
         if recs:
             ctx.sample({"gates": [gates[i - 1]["name"] + str(gates[i - 1]["modes"]) for i in recs[-1]["hist"]], "exact_nbar": recs[-1]["nbar"], "hbars": [h[4] for h in L.HBARS]})
     ctx.notes["states_checked"] = n_states
+    # ---- sampling is hbar-free: photon-number and threshold samples are functions of the hbar-free moments and of the random stream only,
+    # so the same seed must give the same samples for every hbar (deterministic comparison, no statistics); pure and mixed states
+    n_samp = 0
+    cat = L.gaussian_catalogue(2)
+    for trial in range(6 if quick else 40):
+        seq = [rng.choice(cat) for _ in range(rng.choice([1, 2, 3]))]
+        names = [g["name"] + str(g["modes"]) for g in seq]
+        for mname, mk in (("ParticleNumberMeasurement", lambda: pq.ParticleNumberMeasurement()), ("ThresholdMeasurement", lambda: pq.ThresholdMeasurement())):
+            modes = rng.choice([(0,), (1,), (0, 1), (1, 0)])
+            ref = None
+            for h in (L.HBARS[1], L.HBARS[0], L.HBARS[2]):          # hbar = 2 first
+                hb = h[4]
+                with warnings.catch_warnings():
+                    warnings.simplefilter("ignore")
+                    ins = [pq.Vacuum()] + [g["mk"](pq).on_modes(*g["modes"]) for g in seq] + [mk().on_modes(*modes)]
+                    try:
+                        r = pq.GaussianSimulator(d=2, config=pq.Config(hbar=hb, seed_sequence=17, cutoff=6, measurement_cutoff=5)).execute(pq.Program(instructions=ins), shots=12)
+                        smp = [tuple(int(x) for x in sm) for sm in r.samples]
+                    except Exception as e:  # noqa
+                        if hb == 2.0:
+                            break
+                        ctx.report(f"C14:sampling:raises:{mname}:{type(e).__name__}:hbar={hb}", f"{mname} on {modes} after {names} raises {type(e).__name__} for hbar={hb} but not for hbar=2: {str(e)[:100]}",
+                                   {"gates": names, "hbar": hb, "modes": modes})
+                        continue
+                ctx.case(("sampling", tuple(names), mname, modes, hb))
+                n_samp += 1
+                if ref is None:
+                    ref = smp
+                elif smp != ref:
+                    ctx.report(f"C14:sampling:hbar-dependence:{mname}:hbar={hb}", f"{mname} on {modes} after {names}: the samples drawn with the same seed differ between hbar=2 and hbar={hb} "
+                               f"(mean photon number per shot {np.mean([sum(x) for x in ref]):.2f} vs {np.mean([sum(x) for x in smp]):.2f})", {"gates": names, "hbar": hb, "modes": modes})
+                else:
+                    ctx.validated()
+    ctx.notes["sampling_runs"] = n_samp
     ctx.assumptions += ["Fock probabilities / fidelity / threshold probabilities are compared across hbar (no exact closed form in the spec yet)"]
